@@ -918,6 +918,10 @@ struct FormatContext<'source> {
     options: &'source FormatOptions,
     // The byte offset of each line's start
     line_offsets: Vec<u32>,
+    // The byte offset of each token boundary, sorted by position.
+    // (The lexer's columns count display width rather than bytes, so a column can't be used as a
+    // byte offset into the line.)
+    position_offsets: Vec<(Position, u32)>,
 }
 
 impl<'source> FormatContext<'source> {
@@ -930,11 +934,32 @@ impl<'source> FormatContext<'source> {
             )
             .collect();
 
+        let mut position_offsets = Vec::new();
+        for token in koto_lexer::Lexer::new(source) {
+            position_offsets.push((token.span.start, token.source_bytes.start as u32));
+            position_offsets.push((token.span.end, token.source_bytes.end as u32));
+        }
+        position_offsets.sort_unstable();
+        position_offsets.dedup();
+
         Self {
             source,
             ast,
             options,
             line_offsets,
+            position_offsets,
+        }
+    }
+
+    // The byte offset in the source of a position that lies on a token boundary
+    fn byte_offset(&self, position: Position) -> usize {
+        match self
+            .position_offsets
+            .binary_search_by(|(token_position, _)| token_position.cmp(&position))
+        {
+            Ok(i) => self.position_offsets[i].1 as usize,
+            // Not a token boundary, assume that the column matches the byte offset
+            Err(_) => (self.line_offsets[position.line as usize] + position.column) as usize,
         }
     }
 
@@ -951,9 +976,7 @@ impl<'source> FormatContext<'source> {
     }
 
     fn source_slice(&self, span: &Span) -> &'source str {
-        let start = self.line_offsets[span.start.line as usize] + span.start.column;
-        let end = self.line_offsets[span.end.line as usize] + span.end.column;
-        &self.source[start as usize..end as usize]
+        &self.source[self.byte_offset(span.start)..self.byte_offset(span.end)]
     }
 }
 
